@@ -15,6 +15,7 @@ import NumqiProofs.ManifoldSym
 import NumqiProofs.ManifoldEuler
 import NumqiProofs.ManifoldDetExp
 import NumqiProofs.ManifoldABk
+import NumqiProofs.ManifoldContracts
 
 namespace Numqi.C01
 open Numqi Numqi.Manifold Matrix Finset
@@ -77,6 +78,18 @@ theorem probSphere_nonneg (n : Nat) (θ : Nat → ℝ) (i : Nat) : 0 ≤ probSph
 /-- … summing to one (θ ≠ 0) -/
 theorem probSphere_sum (n : Nat) (θ : Nat → ℝ) (hθ : normSq n θ ≠ 0) : ∑ i ∈ range n, probSphereVec n θ i = 1 :=
   probSphere_sum' n θ hθ
+
+/-- `DiscreteProbability(weight=w)`: the output `p_i / w_i` lies on the weighted simplex `Σ w_i q_i = 1` (softmax; any non-zero weights) -/
+theorem weighted_softmax_sum (n : Nat) (θ w : Nat → ℝ) (hn : 0 < n) (hw : ∀ i, i < n → w i ≠ 0) :
+    ∑ i ∈ range n, w i * weightedProb (softmaxVec n θ) w i = 1 := by
+  rw [weightedProb_sum n _ w hw]; exact softmax_sum' n θ hn
+/-- … same for the sphere method (θ ≠ 0) … -/
+theorem weighted_probSphere_sum (n : Nat) (θ w : Nat → ℝ) (hθ : normSq n θ ≠ 0) (hw : ∀ i, i < n → w i ≠ 0) :
+    ∑ i ∈ range n, w i * weightedProb (probSphereVec n θ) w i = 1 := by
+  rw [weightedProb_sum n _ w hw]; exact probSphere_sum' n θ hθ
+/-- … with non-negative entries for positive weights -/
+theorem weighted_prob_nonneg (p w : Nat → ℝ) (i : Nat) (hp : 0 ≤ p i) (hw : 0 < w i) : 0 ≤ weightedProb p w i :=
+  weightedProb_nonneg p w i hp hw
 
 /-! ### trace-one positive semidefinite matrices -/
 
@@ -259,16 +272,54 @@ theorem abk2local_hermitian {R : Type} [CommRing R] [StarRing R] (I : R) (hI : s
 
 example : normSq 2 (fun _ => (1 : ℝ)) ≠ 0 := by norm_num [normSq, sumRange]
 example : ∃ S : Scalars ℂ, S.Valid 3 := ⟨complexScalars 3, complexScalars_valid (by norm_num)⟩
-/-- the contract of `expm` is satisfiable -/
-example (dim : Nat) : ∃ expm : NMat ℂ → NMat ℂ, ∀ A, toM dim dim (expm A) = mexp (toM dim dim A) :=
-  ⟨fun A => NMat.ofFn dim dim fun i j => if h : i < dim ∧ j < dim then mexp (toM dim dim A) ⟨i, h.1⟩ ⟨j, h.2⟩ else 0, fun A => by
-    ext i j; simp [toM, NMat.get_ofFn_fin]⟩
-/-- the contract of `inv` is satisfiable -/
-example (dim : Nat) : ∃ inv : NMat ℂ → NMat ℂ, ∀ P, IsUnit (toM dim dim P).det → toM dim dim (inv P) * toM dim dim P = 1 :=
-  ⟨fun P => NMat.ofFn dim dim fun i j => if h : i < dim ∧ j < dim then (toM dim dim P)⁻¹ ⟨i, h.1⟩ ⟨j, h.2⟩ else 0, fun P hP => by
-    have : toM dim dim (NMat.ofFn dim dim fun i j => if h : i < dim ∧ j < dim then (toM dim dim P)⁻¹ ⟨i, h.1⟩ ⟨j, h.2⟩ else 0)
-        = (toM dim dim P)⁻¹ := by
-      ext i j; simp [toM, NMat.get_ofFn_fin]
-    rw [this]; exact Matrix.nonsing_inv_mul _ hP⟩
+/-! every contract hypothesis is satisfiable, and the theorems are instantiated with such witnesses (so none of them is vacuous) -/
+
+/-- `expm`: exp chart unitary with determinant one, for every θ, with a witness of the contract -/
+example (S : Scalars ℂ) (hS : S.Valid dim) (hd : 1 ≤ dim) (θ : Nat → ℝ) : ∃ expm : NMat ℂ → NMat ℂ,
+    (toM dim dim (soExp expm S dim false θ))ᴴ * toM dim dim (soExp expm S dim false θ) = 1 ∧ (toM dim dim (soExp expm S dim false θ)).det = 1 := by
+  obtain ⟨expm, h⟩ := exists_expm dim
+  exact ⟨expm, soExp_unitary expm h S hS hd false θ, soExp_complex_det_one expm h S hS hd θ⟩
+
+/-- `inv`: Cayley chart -/
+example (S : Scalars ℂ) (hS : S.Valid dim) (hd : 1 ≤ dim) (order : Nat) (isReal : Bool) (θ : Nat → ℝ) : ∃ inv : NMat ℂ → NMat ℂ,
+    (toM dim dim (soCayley inv S dim order isReal θ))ᴴ * toM dim dim (soCayley inv S dim order isReal θ) = 1 := by
+  obtain ⟨inv, h⟩ := exists_inv dim
+  exact ⟨inv, soCayley_unitary inv h S hS hd order isReal θ⟩
+
+/-- `cholesky` and `inv`: choleskyL Stiefel map (`hchol`, `hinv`) -/
+example (isReal : Bool) (θ : Nat → ℝ) (h : rank ≤ dim) : ∃ chol inv : NMat ℂ → NMat ℂ,
+    (toM dim rank (stiefelCholL chol inv dim rank isReal θ))ᴴ * toM dim rank (stiefelCholL chol inv dim rank isReal θ) = 1 := by
+  obtain ⟨chol, hc⟩ := exists_chol (r := rank)
+  obtain ⟨inv, hi⟩ := exists_inv rank
+  exact ⟨chol, inv, stiefelCholL_orthonormal chol inv hc hi isReal θ h⟩
+
+/-- a parameter vector whose `2 × 2` matrix has full column rank (`hfull`) -/
+theorem stiefelMat_id_injective : Function.Injective (toM 2 2 (stiefelMat (K := ℂ) 2 2 true fun p => if p = 0 ∨ p = 3 then 1 else 0)).mulVec := by
+  have : toM 2 2 (stiefelMat (K := ℂ) 2 2 true fun p => if p = 0 ∨ p = 3 then 1 else 0) = 1 := by
+    ext i j
+    fin_cases i <;> fin_cases j <;> simp [toM, stiefelMat, NMat.get_ofFn, CxOps.ofReal]
+  rw [this]; intro x y h; simpa using h
+
+/-- inverse square root: polar Stiefel map (`hsq`, `hfull`) -/
+example : ∃ invSqrt : NMat ℂ → NMat ℂ,
+    (toM 2 2 (stiefelPolar invSqrt 2 2 true fun p => if p = 0 ∨ p = 3 then 1 else 0))ᴴ
+      * toM 2 2 (stiefelPolar invSqrt 2 2 true fun p => if p = 0 ∨ p = 3 then 1 else 0) = 1 := by
+  obtain ⟨f, hf⟩ := exists_invSqrt (r := 2)
+  exact ⟨f, stiefelPolar_orthonormal f hf true _ (by norm_num) stiefelMat_id_injective⟩
+
+/-- `qr`: (`hqr`, `hfull`) -/
+example : ∃ qrQ : NMat ℂ → NMat ℂ,
+    (toM 2 2 (stiefelQR qrQ 2 2 true fun p => if p = 0 ∨ p = 3 then 1 else 0))ᴴ
+      * toM 2 2 (stiefelQR qrQ 2 2 true fun p => if p = 0 ∨ p = 3 then 1 else 0) = 1 := by
+  obtain ⟨f, hf⟩ := exists_qrQ (r := 2) (dim := 2)
+  exact ⟨f, stiefelQR_orthonormal f hf true _ stiefelMat_id_injective⟩
+
+/-- the guard `hθ` of `psdEnsemble_trace_one` (every state block non-zero) is satisfied by `θ = 1` -/
+example : trace (toM 3 3 (psdEnsemble (K := ℂ) 3 2 false fun _ => 1)) = 1 :=
+  psdEnsemble_trace_one false _ (by norm_num) (fun k => by simp [normSq_eq])
+
+/-- the guards of the quotient maps -/
+example : ∑ i ∈ range 3, sphereQuotientVec 3 (fun _ => (1 : ℝ)) i * sphereQuotientVec 3 (fun _ => (1 : ℝ)) i = 1 :=
+  sphereQuotient_real_norm 3 _ (by simp [normSq_eq])
 
 end Numqi.C01
